@@ -8,9 +8,10 @@
    kapture.core.PoseTransform with the rotation matrix of the normalising branch (MQV.rot);
    the *_impl versions use the matrix the code really computes (MQV.rot_impl, with the
    `abs(q_norm-1) < 1e-14` shortcut) and *_api are the calls with None parts and exceptions modelled. *)
-From Coq Require Import QArith Qabs List.
-From KV.Model Require Import MQV MPose.
-From KV.Proofs Require Import PQV PPose.
+From Coq Require Import String QArith Qabs List.
+From KV.Model Require Import MQV MPose MPoseMemo.
+From KV.Proofs Require Import PQV PPose PPoseMemo.
+From KV.Gen Require Tpose.
 Import ListNotations.
 Local Open Scope Q_scope.
 
@@ -265,3 +266,51 @@ Proof.
   - vm_compute. discriminate.
   - intros H. vm_compute in H. destruct H as (_ & _ & _ & _ & H & _). discriminate.
 Qed.
+
+(* --- 12. every call is a function of ITS OWN arguments, over a whole process history (Model/MPoseMemo.v).
+        The three operations may share a remembered quaternion->matrix conversion; `run_m hit m cs` runs the calls cs
+        in order from the remembered state m, reusing the remembered matrix for q when `hit last q`.  `run_pure` is the
+        stateless code layer (inverse_impl / compose_from_impl / transform_impl), which the laws above are about.
+        (a) for ALL histories and all consistent start states the results are the stateless ones as soon as the
+            criterion only identifies quaternions with the same matrix; (b) and only then: a criterion that
+            identifies two quaternions with different matrices is visible on a two-call history;
+        (c) HEAD (no reuse) and reuse for the identical quaternion are transparent; numpy.allclose is not. *)
+Theorem C05_history_calls_stateless : forall hit, sound_criterion hit ->
+  forall m cs, memo_ok m -> Forall2 res_eq (run_m hit m cs) (run_pure cs).
+Proof. exact memo_sound. Qed.
+Print Assumptions C05_history_calls_stateless.
+Theorem C05_reuse_visible_unless_same_matrix : forall hit a b, hit a b = true -> ~ rot_impl a =m= rot_impl b ->
+  ~ Forall2 res_eq (run_m hit None (probe a b)) (run_pure (probe a b)).
+Proof. exact memo_complete. Qed.
+Print Assumptions C05_reuse_visible_unless_same_matrix.
+Theorem C05_reuse_transparent_iff : forall hit, transparent hit <-> sound_criterion hit.
+Proof. exact transparent_iff. Qed.
+Print Assumptions C05_reuse_transparent_iff.
+Theorem C05_head_is_stateless : transparent hit_never /\ transparent hit_same.
+Proof. split; [ exact hit_never_transparent | exact hit_same_transparent ]. Qed.
+Print Assumptions C05_head_is_stateless.
+Theorem C05_allclose_reuse_refuted :
+  ~ Forall2 res_eq (run_m hit_allclose None witness_history) (run_pure witness_history) /\ ~ transparent hit_allclose.
+Proof. split; [ exact hit_allclose_refuted | exact hit_allclose_not_transparent ]. Qed.
+Print Assumptions C05_allclose_reuse_refuted.
+(* the witness is inside the property's domain: both quaternions are valid, np.allclose holds between them, and the
+   second call of the history returns the point rotated by the FIRST quaternion *)
+Example C05_example_nearby :
+  let q0 := mkQ 1 1 1 1 in let q1 := mkQ 1 1 1 (200001 # 200000) in
+  (hit_allclose q0 q1 = true) /\ (~ n2 q0 == 0) /\ (~ n2 q1 == 0) /\
+  Forall2 res_eq (run_m hit_allclose None witness_history) [RPoints [mkV 0 1 0]; RPoints [mkV 0 1 0]] /\
+  (run_m hit_never None witness_history = run_pure witness_history).
+Proof.
+  cbv zeta. split; [ vm_compute; reflexivity | ]. split; [ vm_compute; discriminate | ].
+  split; [ vm_compute; discriminate | ]. split; [ | vm_compute; reflexivity ].
+  repeat constructor; vm_compute; reflexivity.
+Qed.
+
+(* --- 13. the two facts about the SOURCE on which the history models rest, re-read from kapture/core/PoseTransform.py
+        of the tree under test on every check (harness/tables/pose.py, ast): an instance stores nothing but _r and _t
+        (MPose: an object holds only its current (r, t)), and no function of the module can change a module-level or
+        class-level name, nor carries a caching decorator (MPoseMemo: hit_never, no remembered conversion). *)
+Theorem C05_source_keeps_no_state :
+  Tpose.instance_fields = ["_r"%string; "_t"%string] /\ Tpose.module_state = [].
+Proof. split; reflexivity. Qed.
+Print Assumptions C05_source_keeps_no_state.
